@@ -59,6 +59,8 @@ val fold_left : ('a1 -> 'a2 -> 'a1) -> 'a2 list -> 'a1 -> 'a1
 
 val existsb : ('a1 -> bool) -> 'a1 list -> bool
 
+val forallb : ('a1 -> bool) -> 'a1 list -> bool
+
 val filter : ('a1 -> bool) -> 'a1 list -> 'a1 list
 
 val firstn : nat -> 'a1 list -> 'a1 list
@@ -356,6 +358,10 @@ val observe : shared -> pc -> z list
 val dec_op : z -> op
 
 val updl : 'a1 list -> nat -> 'a1 -> 'a1 list
+
+val all_free : shared -> bool
+
+val warp : config -> z -> config
 
 val go : config -> z list list -> z list -> z list -> (config * z list) option
 
